@@ -25,7 +25,7 @@ def slotUniverse : List Nat := [0, 1, 2, 3, 4, 5, 6, 7]
 
 def World.addrUniverse (w : World) : List Addr :=
   dedupAddrs (w.exist.map (·.1) ++ w.nonce.map (·.1) ++ w.bal.map (·.1) ++ w.code.map (·.1)
-    ++ w.sui.map (·.1) ++ w.stor.map (·.1.1) ++ w.transient.map (·.1.1) ++ w.access)
+    ++ w.sui.map (·.1) ++ w.stor.map (·.1.1) ++ w.transient.map (·.1.1) ++ w.access ++ w.stake.map (·.1))
 
 def World.dumpAccount (w : World) (a : Addr) : String :=
   let st := slotUniverse.filterMap (fun k =>
@@ -44,8 +44,20 @@ def World.dump (w : World) : String :=
     let v := w.getTransient a k
     if v = 0 then none else some (a.name ++ "." ++ toString k ++ "=" ++ toString v)))).flatten)
   let acc := sortDedup (w.access.map Addr.name)
+  let stakes := sortDedup ((dedupAddrs (w.stake.map (·.1))).map (fun a => a.name ++ "=" ++ toString (w.getStake a)))
   "A[" ++ joinWith ";" accts ++ "] B[" ++ joinWith ";" bals ++ "] L[" ++ joinWith ";" logs
-    ++ "] T[" ++ joinWith ";" trans ++ "] X[" ++ joinWith ";" acc ++ "]"
+    ++ "] M[" ++ joinWith ";" stakes ++ "] T[" ++ joinWith ";" trans ++ "] X[" ++ joinWith ";" acc
+    ++ "] F=" ++ toString w.refund
+
+/-- end-of-block answer of the real block loop stream: all logs, transient storage, access list -/
+def World.dumpScratch (w : World) : String :=
+  let u := w.addrUniverse
+  let logs := w.logs.map Log.name
+  let trans := sortDedup ((u.map (fun a => slotUniverse.filterMap (fun k =>
+    let v := w.getTransient a k
+    if v = 0 then none else some (a.name ++ "." ++ toString k ++ "=" ++ toString v)))).flatten)
+  let acc := sortDedup (w.access.map Addr.name)
+  "L[" ++ joinWith ";" logs ++ "] T[" ++ joinWith ";" trans ++ "] X[" ++ joinWith ";" acc ++ "]"
 
 def fnv1a (s : String) : UInt64 :=
   s.toUTF8.foldl (fun h b => (h ^^^ b.toUInt64) * 1099511628211) 14695981039346656037
